@@ -568,6 +568,9 @@ func NewWorld(t *testing.T, cfg Config, seed uint64, concurrent bool) *World {
 	w.DB = newDB(w)
 	w.KB = newKB(w)
 	w.IdP = newIdP(w)
+	// which failure shape an injected error takes first differs from run to run
+	w.IdP.n = int(seed % 3)
+	w.errN = int64((seed / 3) % 4)
 
 	w.restart()
 	if cfg.SecondSite {
